@@ -46,6 +46,11 @@ func caseC17(c *Ctx) {
 		return
 	}
 	d := a.W.DumpEntities()
+	dcopy := ecs.EntityDump{Entities: append([]ecs.Entity{}, d.Entities...), Alive: append([]uint32{}, d.Alive...), Next: d.Next, Available: d.Available}
+	aliveAtDump := map[ecs.Entity]bool{}
+	for h := range a.M.Ledger {
+		aliveAtDump[h] = a.W.Alive(h)
+	}
 	// free-list shape: walk Next for Available steps
 	order := []uint32{}
 	cur := d.Next
@@ -208,6 +213,24 @@ func caseC17(c *Ctx) {
 				break
 			}
 		}
+	}
+	// the dump is a value: nothing the dumped or the loaded world did afterwards may have changed it,
+	// and loading it a second time gives the dump-time state again
+	if !a.Failed() {
+		if !reflect.DeepEqual(d.Entities, dcopy.Entities) || fmt.Sprint(d.Alive) != fmt.Sprint(dcopy.Alive) || d.Next != dcopy.Next || d.Available != dcopy.Available {
+			a.fail("dump.mutated", "the dump changed after it was taken (the worlds went on): %+v, at dump time %+v", d, dcopy)
+		}
+	}
+	if !a.Failed() && c.Case%2 == 1 {
+		cw := ecs.NewWorld(ecs.NewConfig().WithCapacityIncrement(Pick(c.R, []int{1, 2, 128})))
+		cw.LoadEntities(&d)
+		for h, want := range aliveAtDump {
+			if cw.Alive(h) != want {
+				a.fail("load.second", "after loading the same dump a second time Alive(%v)=%v, at dump time %v", h, cw.Alive(h), want)
+				break
+			}
+		}
+		a.Cov.N["second_loads"]++
 	}
 	finish(c, a, nontrivial)
 }
